@@ -54,6 +54,7 @@ func e6Sources(c *Ctx, nfiles int) []srcFile {
 		}
 		files = append(files, srcFile{pkg: "p", name: fmt.Sprintf("f%02d.go", i), text: b.String()})
 	}
+	files = append(files, srcFile{pkg: "p", name: "shared.go", text: "package p\n\n// package-level state declared in a file the compiler does not process\nvar SharedG int\n"})
 	// the repository's own corpus (realistic sources)
 	gold := filepath.Join(work.Repo(), "rewriter", "test", "src")
 	ents, _ := os.ReadDir(gold)
@@ -134,9 +135,14 @@ func C15(c *Ctx) {
 	files := e6Sources(c, nfiles)
 	other := []srcFile{}
 	for i, f := range files {
-		if f.pkg == "p" {
+		if f.pkg != "p" {
+			continue
+		}
+		if i < nfiles {
 			// same file names, different content: what an EARLIER run of other sources would have left behind
-			other = append(other, srcFile{pkg: "p", name: f.name, text: strings.Replace(files[(i+1)%nfiles].text, "package p", "package p", 1)})
+			other = append(other, srcFile{pkg: "p", name: f.name, text: files[(i+1)%nfiles].text})
+		} else {
+			other = append(other, f)
 		}
 	}
 	extraBefore := "package p\n\nimport . \"github.com/goghcrow/go-co\"\n\nfunc AAextra() Iter[int] {\n\tfor i, r := range \"xy\" {\n\t\tYield(i + int(r))\n\t}\n\tfor range 2 {\n\t\tYield(0)\n\t}\n\treturn nil\n}\n"
